@@ -149,6 +149,7 @@ class StreamItemQueue:
         self._start()
         self._started.set()
         entries = self._entries
+        failed = False  # whether an item has been cancelled since the stream failed
         while True:
             # The head entry is kept on the queue object while it is awaited, so
             # that it can still be discarded when the queue is aborted meanwhile.
@@ -163,8 +164,17 @@ class StreamItemQueue:
                 if entry.cancelled():
                     # The pending items are cancelled when the stream fails;
                     # the failure is delivered by one of the next entries.
-                    self._head = None
-                    continue
+                    failed = True
+            if failed and entry is not _END and not isinstance(entry, _ErrorEntry):
+                # Items after a cancelled one must not be delivered any more,
+                # since they would take the place of the missing one.
+                self._head = None
+                cancel_awaitables: list[Awaitable[Any]] = []
+                self._discard_entry(entry, None, cancel_awaitables)
+                if cancel_awaitables:
+                    await gather(*cancel_awaitables, return_exceptions=True)
+                continue
+            if isfuture(entry):
                 try:
                     entry = entry.result()
                 except Exception:
@@ -195,7 +205,8 @@ class StreamItemQueue:
                     break
                 if isfuture(next_entry):
                     if next_entry.cancelled():
-                        continue  # see above
+                        self._head = next_entry  # deliver the items before the gap
+                        break
                     try:
                         next_entry = next_entry.result()
                     except Exception:
